@@ -18,6 +18,7 @@ const (
 	PRef                       // {{ v }}
 	PEq                        // {{ v == 'lit' }}
 	PNe                        // {{ v != 'lit' }}
+	PPrefOver                  // {{ util.PrefixedOverride('v', 'lit') }}: lit_v if defined and usable, else v if defined and usable, else ""
 	PErrOpen                   // "{{ v" without end tag (malformed; must be the last part)
 	PErrFunc                   // {{ nofunc.X() }}  undefined function object
 	PErrVar                    // {{ undefined_zz }} undefined variable
@@ -66,6 +67,8 @@ func (t Tpl) Text() string {
 			sb.WriteString("{{ " + p.S + " == '" + p.Lit + "' }}")
 		case PNe:
 			sb.WriteString("{{ " + p.S + " != '" + p.Lit + "' }}")
+		case PPrefOver:
+			sb.WriteString("{{ util.PrefixedOverride('" + p.S + "', '" + p.Lit + "') }}")
 		case PErrOpen:
 			sb.WriteString("{{ " + p.S)
 		case PErrFunc:
@@ -120,6 +123,20 @@ func (t Tpl) Eval(look lookupFn) (string, error) {
 				sb.WriteString("true")
 			} else {
 				sb.WriteString("false")
+			}
+		case PPrefOver:
+			// a variable that is not defined, is "none" or is blank does not count; never an error
+			usable := func(name string) (string, bool) {
+				v, ok := look(name)
+				if !ok || v == "none" || strings.TrimSpace(v) == "" {
+					return "", false
+				}
+				return v, true
+			}
+			if v, ok := usable(p.Lit + "_" + p.S); ok {
+				sb.WriteString(v)
+			} else if v, ok := usable(p.S); ok {
+				sb.WriteString(v)
 			}
 		case PErrIfEq:
 			v, ok := look(p.S)
